@@ -837,6 +837,16 @@ class _ConsumerFailure(Exception):
     pass
 
 
+def subscribe_list(op, items):
+    """rx.from_(items).pipe(op) -> list of what it emits, a terminal error as a last ('ERROR', repr) entry"""
+    got = []
+    try:
+        rx.from_(list(items)).pipe(op).subscribe(on_next=got.append, on_error=lambda e: got.append(('ERROR', repr(e))))
+    except Exception as e:          # noqa: BLE001
+        got.append(('ERROR', repr(e)))
+    return got
+
+
 def twin_subscriptions(make, items, out, what, digest_fn):
     """Two observers of the SAME observable alive at the same time on one pushed source (a Subject with two
     subscribers and no share()): each owes the events a single subscriber gets.  digest_fn(list of items) -> value
